@@ -30,11 +30,18 @@ class AMock:
 
     # protocol used by the abstract interpreter
     def absint_hasattr(self, name):
+        like = self.script.get('like')
+        if like is not None and name not in self.script and ('attr:' + name) not in self.script:
+            return hasattr(like, name)
         return name in self.script or ('attr:' + name) in self.script
 
     def absint_getattr(self, interp, name, node):
         if ('attr:' + name) in self.script:
             return self.script['attr:' + name]
+        like = self.script.get('like')
+        if like is not None and name not in self.script and not hasattr(like, name):
+            # the double stands for an object of a known library type: it has the attributes that type has, no others
+            raise AbsRaise('AttributeError', node, implicit=True, msg=f'{like.__name__!r} object has no attribute {name!r}')
         if name in self.script or not self.script.get('strict'):
             return ('mockmethod', self, name)
         raise AbsRaise('AttributeError', node, implicit=True)
